@@ -87,6 +87,7 @@ type world struct {
 	validCh  []int            // indices of valid non-bottom chains
 	badCh    []int            // indices of invalid chains
 	supps    []gpbft.SupplementalData
+	twin     map[int]int // chain index -> index of its look-alike chain
 	junkKeys []gpbft.ECChainKey
 
 	payloadSym map[string]string // signed bytes -> symbolic SigMsg
@@ -278,6 +279,24 @@ func newWorld(rng *vh.Rng, out liner) *world {
 	addChain(false, tUndefPT)
 	addChain(false, main[0], tLongPT)
 	addChain(false, tNeg, main[0])
+	// look-alikes: a tipset with the epoch, key and power-table CID of another one and different commitments — a
+	// different tipset, hence a different chain with a different key, although everything a cache or an index is
+	// likely to be keyed by coincides
+	twinTip := func(t *gpbft.TipSet) *gpbft.TipSet {
+		ts := &gpbft.TipSet{Epoch: t.Epoch, Key: t.Key, PowerTable: t.PowerTable, Commitments: t.Commitments}
+		ts.Commitments[7] ^= 0x5a
+		w.tipID[ts] = len(w.tips)
+		w.tips = append(w.tips, ts)
+		return ts
+	}
+	tw1, tw2 := twinTip(main[1]), twinTip(main[2])
+	w.twin = map[int]int{}
+	w.twin[2] = addChain(true, main[0], tw1)
+	w.twin[3] = addChain(true, main[0], main[1], tw2)
+	w.twin[7] = addChain(true, tw1, main[2])
+	for a, b := range w.twin {
+		w.twin[b] = a
+	}
 	for _, c := range w.chains {
 		w.keySym[c.Key()] = "c" + w.descChain(c)
 	}
@@ -749,6 +768,9 @@ func clone(r *msgR) *msgR {
 }
 
 func (w *world) otherChain(not int) int {
+	if t, ok := w.twin[not]; ok && w.rng.Chance(1, 3) {
+		return t
+	}
 	for {
 		c := w.rng.Intn(len(w.chains))
 		if w.rng.Chance(2, 3) {
